@@ -61,7 +61,7 @@ func (Engine) Execute(t *testing.T, plan *simkit.Plan) *simkit.Result {
 	return execMux(t, plan)
 }
 
-var yieldSites = []string{"multiplexing.open.sent", "multiplexing.accept.established", "multiplexing.read.increment"}
+var yieldSites = []string{"multiplexing.open.sent", "multiplexing.accept.established", "multiplexing.read.increment", "multiplexing.write.block"}
 
 func genMux(p *simkit.Plan, r *simkit.Rand, tier string) {
 	c := p.Cfg
@@ -166,9 +166,68 @@ func genMux(p *simkit.Plan, r *simkit.Rand, tier string) {
 			add(actor(side, r.Intn(nclients)), "muxclose")
 		}
 	}
+	if nclients >= 2 && r.Chance(1, 5) {
+		// A half-close racing with a large write on the same stream end, issued
+		// by two different clients, over a carrier that holds write buffers back.
+		slot := r.Intn(nstreams)
+		side := simkit.Pick(r, sides)
+		ensureOpen(slot)
+		c["wbuf"] = int64(simkit.Pick(r, []int{1, 1, 2}))
+		c["linkcap"] = int64(simkit.Pick(r, []int{8, 64, 0}))
+		add(writeActor(side, slot), "write", int64(slot), int64(r.Range(maxWrite/2+1, maxWrite+1)))
+		add(readActor(side, slot), "closewrite", int64(slot))
+		add(readActor(other[side], slot), "read", int64(slot), int64(maxWrite))
+	}
+	if (prof == "stall" || prof == "conform") && r.Chance(1, 6) {
+		// Mutual backlog overflow: both sides open more streams than the peer
+		// will queue, at about the same time, with few write buffers and a
+		// carrier that pushes back.
+		c["wbuf"] = int64(simkit.Pick(r, []int{1, 1, 2}))
+		c["linkcap"] = int64(simkit.Pick(r, []int{8, 8, 16}))
+		c["backlog"] = int64(simkit.Pick(r, []int{1, 1, 2}))
+		c["delay_us"] = int64(simkit.Pick(r, []int{5000, 5000, 100, 0}))
+		c["hbrecv_ms"] = 0 // (a delayed carrier may legitimately miss a receive timeout)
+		extra := 120
+		// One dedicated client per open, so that they are all in flight at once
+		// (an open blocks its caller until it is answered or times out).
+		for k := int(c["backlog"]) + r.Range(3, 7); k > 0; k-- {
+			for _, sd := range sides {
+				extra++
+				add(fmt.Sprintf("%s%d", sd, 3+k), "open", int64(extra), int64(simkit.Pick(r, []int{400, 1500})))
+			}
+		}
+	}
 	if prof == "stall" && r.Chance(1, 4) {
 		p.Faults = append(p.Faults, simkit.Fault{Kind: "link_cut", Key: simkit.Pick(r, []string{"A>B", "B>A"}), Nth: 1, Arg: int64(r.Range(0, 400))})
 	}
+}
+
+// secondCloserBehindParkedOp keeps the simulator from wedging itself: while a
+// read or write on a stream is parked at a yield site it holds that stream's
+// deadline token; a first Close/CloseWrite then waits for the token inside a
+// sync.Once (durably), but a second one would wait for the Once's mutex, which
+// synctest cannot see as blocked. The second closer is skipped in that situation
+// (it is the simulator, not the system, that keeps the token holder from running).
+func (h *harness) secondCloserBehindParkedOp(sl *slot) bool {
+	h.mu.Lock()
+	defer h.mu.Unlock()
+	parked, closing := false, false
+	for _, op := range h.inflight {
+		if op.sl != sl {
+			continue
+		}
+		if op.atYield {
+			parked = true
+		}
+		if op.kind == "close" || op.kind == "closewrite" {
+			closing = true
+		}
+	}
+	if parked && closing {
+		h.s.Count("probe.second_closer_skipped", 1)
+		return true
+	}
+	return false
 }
 
 // pat is the byte at position i of the stream sid written by side from.
@@ -362,7 +421,7 @@ func (h *harness) exec(sd *side, actor string, op simkit.Op) {
 		h.read(sd, actor, sl, int(op.Int(1)))
 	case "closewrite":
 		sl := getSlot()
-		if sl == nil {
+		if sl == nil || h.secondCloserBehindParkedOp(sl) {
 			return
 		}
 		h.mu.Lock()
@@ -377,7 +436,7 @@ func (h *harness) exec(sd *side, actor string, op simkit.Op) {
 		s.Logf(actor, "closewrite sid=%d -> %s", sl.sid, errClass(err))
 	case "close":
 		sl := getSlot()
-		if sl == nil {
+		if sl == nil || h.secondCloserBehindParkedOp(sl) {
 			return
 		}
 		h.mu.Lock()
@@ -597,8 +656,10 @@ func execMux(t *testing.T, plan *simkit.Plan) *simkit.Result {
 			}
 		}
 		h.mon = newMonitor(s)
-		ca := &carrier{in: h.ba, out: h.ab, onWrite: func(p []byte) { h.mon.sent("A", p) }}
-		cb := &carrier{in: h.ab, out: h.ba, onWrite: func(p []byte) { h.mon.sent("B", p) }}
+		h.ab.tap = func(p []byte) { h.mon.sent("A", p) }
+		h.ba.tap = func(p []byte) { h.mon.sent("B", p) }
+		ca := &carrier{in: h.ba, out: h.ab}
+		cb := &carrier{in: h.ab, out: h.ba}
 		mk := func(window int64) *multiplexing.Configuration {
 			return &multiplexing.Configuration{
 				StreamReceiveWindow:             int(window),
@@ -766,6 +827,22 @@ func (h *harness) invariant() {
 		s.Violate("C24", "teardown", cls, "multiplexers closed although neither side was closed by the workload and the carrier did not fail: A error=%v, B error=%v", ea, eb)
 	}
 	linkIdle := h.ab.idle() && h.ba.idle()
+	// C25 (no head-of-line blocking, nothing left pending): at a quiescent
+	// point every goroutine is blocked, so a multiplexer's reader is either
+	// waiting for carrier data or stuck somewhere else. Complete frames that
+	// have arrived and are not consumed mean it is stuck - it waits for
+	// something other than its carrier - and everything behind those frames
+	// (data of every stream, rejections, window updates) is held up with it.
+	if !expected && !aClosed && !bClosed {
+		for _, l := range []struct {
+			link   *link
+			reader string
+		}{{h.ab, "B"}, {h.ba, "A"}} {
+			if n := l.link.visible(); n > 0 {
+				s.Violate("C25", "reader-stalled", "carrier", "%d bytes of complete frames have arrived for multiplexer %s and nothing runs, yet its reader does not consume them: it is blocked on something other than its carrier", n, l.reader)
+			}
+		}
+	}
 	h.mu.Lock()
 	defer h.mu.Unlock()
 	pendingOpens := map[string]int{}
